@@ -404,7 +404,7 @@ let rec handle (line : string) : string =
     (match decode (bytes_of_hex s) with
      | Ok f -> Printf.sprintf "OK %s" (str_frame f)
      | Err e -> str_ferr e)
-  | ["F2M"; a; t; d] | ["F2MB"; a; t; d] ->
+  | ["F2M"; a; t; d] | ["F2MB"; a; t; d] | ["F2MP"; a; t; d] ->
     let f = { f_addr = num a; f_type = num t; f_data = bytes_of_hex d } in
     let m = msg_of_frame f in
     Printf.sprintf "%s %s" (str_msg m) (str_frame (frame_of_msg m))
